@@ -482,6 +482,22 @@ func (d *drv) secrets(m *keystore.KeystoreManagerForPoC) (kinds []string, needle
 // reopenProj: copy the store, find the public passphrases that open the copy, project the reopened instance,
 // find the private passphrases that unlock it, and ask it for the next index on every branch.
 func (d *drv) reopenProj(w *wallet, n int) (map[string]interface{}, string) {
+	// A copy of a live goleveldb directory can be torn in ways goleveldb still opens (a table dropped or a manifest
+	// rotated between two file copies): a copy that no public passphrase opens although the running instance is
+	// open is taken again.  A store that really cannot be reopened stays that way in every copy.
+	var out map[string]interface{}
+	var cp string
+	for attempt := 0; attempt < 4; attempt++ {
+		out, cp = d.reopenProjOnce(w, n)
+		if ops, _ := out["opens"].([]string); len(ops) > 0 || w.mgr == nil {
+			break
+		}
+		time.Sleep(20 * time.Millisecond)
+	}
+	return out, cp
+}
+
+func (d *drv) reopenProjOnce(w *wallet, n int) (map[string]interface{}, string) {
 	cp := filepath.Join(d.dir, fmt.Sprintf("%s-copy%d", w.name, n))
 	defer os.RemoveAll(cp)
 	out := map[string]interface{}{}
